@@ -287,4 +287,20 @@ theorem tie_load_virtual_shape :
     loadVirtualShape = [s!"if (get_machine_state() < {msMudlibLimbo})", "return", "apply_master_ob(\"compile_object\", 1)",
       s!"if (!v || (v->type != {tObject}))", "return", "return"] := by decide
 
+/-- f_bind = the `.bind` case of `execWith`: binding to the present owner returns at once (the master is not asked);
+    otherwise master valid_bind through the NON-catching apply (an error propagates: `Ans.err`), refusal iff
+    !MASTER_APPROVED (a NULL result - no valid_bind in the master - refuses: `Cfg.noVb`) = error; only after that the
+    function gets its new owner -/
+theorem tie_bind_shape :
+    bindShape = [
+      "if (ob == old_fp->hdr.owner)", "return",
+      s!"if (old_fp->hdr.type == ({fpLocal} | {fpNotBindable}))", "error(\"Local function is not bindable.\\n\")",
+      s!"if (old_fp->hdr.type & {fpNotBindable})", "error(\"Function that references global variables is not bindable.\\n\")",
+      s!"if (current_object->flags & {oDestructed})", s!"if (old_fp->hdr.owner->flags & {oDestructed})",
+      "apply_master_ob(\"valid_bind\", 3)",
+      s!"if !((res == -1) || (res && ((res->type != {tNumber}) || res->u.number)))",
+      "error(\"Permission of binding denied by master object.\\n\")",
+      s!"if ((old_fp->hdr.type & 15) == {fpFunctional})", "(new_fp->hdr.owner = ob)",
+      s!"if ((old_fp->hdr.type & 15) == {fpFunctional})"] := by decide
+
 end NV.C20
